@@ -42,6 +42,17 @@ def gen_cases(ctx):
                                             threads=rng.choice([1, 1, 4]))); cid += 1
         for _ in range(200 if thorough else 30):
             cases.append(case_capacity(f"c{cid}", kind, rng, rng.choice([120, 160, 200, 250]))); cid += 1
+    # large managers (several allocation chunks of 65536 slots): sessions that allocate, drop and collect without
+    # leaving the manager, then the capacity probe: every slot must be available again
+    for kind in ("bdd", "bcdd"):
+        for capk in ((2, 3) if not thorough else (2, 3, 4, 5)):
+            ops = ["VARS 1200"]      # (no snapshots here: the driver's value tables are exponential in the variable count)
+            for _ in range(rng.randrange(1, 4)):
+                ops.append(f"SESSION {rng.choice([1, 10, 500, 1000, 1200])}")
+                if rng.random() < 0.5:
+                    ops.append("VAR h0 3"); ops.append("DROP h0")
+            ops += ["GC", "BIGFILL", "GC", f"SESSION {rng.choice([700, 1100])}", "BIGFILL", "GC"]
+            cases.append((ddgen.header(f"L{cid}", kind, cap=capk * 65536, threads=1), ops)); cid += 1
     # MTBDD: inner nodes and the reference-counted terminals of the dynamic terminal manager
     for _ in range(300 if thorough else 40):
         h, ops = ddgen.mt_case_history(f"m{cid}", rng, length=rng.choice([40, 80]), threads=rng.choice([1, 1, 4]))
@@ -52,7 +63,7 @@ def gen_cases(ctx):
 def run(ctx):
     ddcommon.run_dd(
         ctx, ["C05"], gen_cases(ctx),
-        rule="MTBDD histories (arithmetic, ite, restrict, constants; gc; final drop all + gc: no inner node and no terminal left, after every gc no unreferenced terminal survives); per kind (bdd, bcdd, zbdd): random histories (apply, quantification, substitution, clone, drop, drop on another thread, gc, add_vars, set_var_order) with a snapshot and the reference-count audit after every op and a final 'drop all; gc; snapshot'; small-capacity managers (120..500 nodes, automatic collection at the high-water mark, failing operations) framed by the capacity probe. non-trivial = case with >= 3 ops",
+        rule="large managers (2-3 allocation chunks; thorough 2-5): sessions that create up to 1200 nodes, drop them and collect inside one manager session, then a capacity probe that fills the store completely; MTBDD histories (arithmetic, ite, restrict, constants; gc; final drop all + gc: no inner node and no terminal left, after every gc no unreferenced terminal survives); per kind (bdd, bcdd, zbdd): random histories (apply, quantification, substitution, clone, drop, drop on another thread, gc, add_vars, set_var_order) with a snapshot and the reference-count audit after every op and a final 'drop all; gc; snapshot'; small-capacity managers (120..500 nodes, automatic collection at the high-water mark, failing operations) framed by the capacity probe. non-trivial = case with >= 3 ops",
         allowed_axioms=ALLOWED_AXIOMS)
 
 
